@@ -3,7 +3,9 @@ package expr
 import (
 	"time"
 
+	bcrpb "github.com/google/fhir/go/proto/google/fhir/proto/r4/core/resources/bundle_and_contained_resource_go_proto"
 	"github.com/verily-src/fhirpath-go/fhirpath/system"
+	"google.golang.org/protobuf/types/known/anypb"
 )
 
 // Context holds the global time and external constant
@@ -23,6 +25,12 @@ type Context struct {
 	// the 'LastResult' will be the unwrapped list from 'given', but we need the
 	// 'name' element that contains the 'given' list in order to alter the list.
 	BeforeLastResult system.Collection
+
+	// Contained holds the ContainedResource unpacked from each google.protobuf.Any
+	// (a `contained` entry) that navigation has entered during this evaluation.
+	// Navigation works on these unpacked copies, so FHIRPatch needs to know where
+	// each one came from in order to write a change back into the resource.
+	Contained map[*anypb.Any]*bcrpb.ContainedResource
 }
 
 // Clone copies this Context object to produce a new instance.
@@ -31,6 +39,7 @@ func (c *Context) Clone() *Context {
 		Now:               c.Now,
 		ExternalConstants: c.ExternalConstants,
 		LastResult:        c.LastResult,
+		Contained:         c.Contained,
 	}
 }
 
@@ -43,5 +52,6 @@ func InitializeContext(input system.Collection) *Context {
 			"context": input,
 			"ucum":    system.String("http://unitsofmeasure.org"),
 		},
+		Contained: map[*anypb.Any]*bcrpb.ContainedResource{},
 	}
 }
